@@ -12,6 +12,9 @@
 //!               pref: i (inherit from the request) | a | d<dc> | r<dc>.<rack>
 //! request       <token|_>/<ks index | u (table in an unknown keyspace) | _ (no table)>/<lwt>/<pref>
 //!               lwt: 0 | 1 (is_confirmed_lwt) | 2 (Consistency::Serial) | 3 (LocalSerial)
+//! second kind:  L <nodes> <ring> <keyspaces> <flags at pick()> <flags afterwards> <policy> <request> | <plan>
+//!               one Plan whose first target is taken under the first liveness and the rest under the second
+//!               (only generated when pick() yields a target)
 //! observed      pick: `_` or id:shard (shard `_` = None); fallback: id:shard,... ; plans: id:shard,...
 use scylla::cluster::ClusterState;
 use scylla::cluster::verif_node_flags as flags;
@@ -53,8 +56,10 @@ fn tgt(n: &Arc<scylla::cluster::Node>, s: Option<u32>) -> String {
 }
 
 fn run_case(cx: &mut Ctx, case: &str) -> String {
-    let f: Vec<&str> = case.split_whitespace().collect();
-    if f.len() != 7 || f[0] != "P" {
+    let mut f: Vec<&str> = case.split_whitespace().collect();
+    let two = f.len() == 8 && f[0] == "L";
+    let flags2 = if two { Some(f.remove(5)) } else { None };
+    if f.len() != 7 || (f[0] != "P" && f[0] != "L") {
         return "error unknown-case".into();
     }
     let key = format!("{} {} {}", f[1], f[2], f[3]);
@@ -64,16 +69,20 @@ fn run_case(cx: &mut Ctx, case: &str) -> String {
         cx.cluster = Some(build(&cx.rt, &topo, &kss));
         cx.key = key;
     }
+    install_sharders(&topo);
     // liveness flags
-    flags::clear_node_flags();
-    for ((id, _, _), fl) in topo.nodes.iter().zip(f[4].chars()) {
-        let (en, co) = match fl {
-            'c' => (true, true),
-            'e' => (true, false),
-            _ => (false, false),
-        };
-        flags::set_node_flags(Uuid::from_u128(*id as u128), en, co);
-    }
+    let set_flags = |fs: &str| {
+        flags::clear_node_flags();
+        for ((id, _, _), fl) in topo.nodes.iter().zip(fs.chars()) {
+            let (en, co) = match fl {
+                'c' => (true, true),
+                'e' => (true, false),
+                _ => (false, false),
+            };
+            flags::set_node_flags(Uuid::from_u128(*id as u128), en, co);
+        }
+    };
+    set_flags(f[4]);
     let cluster = cx.cluster.as_ref().unwrap();
     // policy
     let pf: Vec<&str> = f[5].split('/').collect();
@@ -109,6 +118,20 @@ fn run_case(cx: &mut Ctx, case: &str) -> String {
     };
     ri.node_location_preference = &req_pref;
 
+    if let Some(fl2) = flags2 {
+        let r = catch(AssertUnwindSafe(|| {
+            if policy.pick(&ri, cluster).is_none() {
+                return "nopick".to_string();
+            }
+            let mut plan = Plan::new(policy.as_ref(), &ri, cluster);
+            let mut out: Vec<String> = plan.next().map(|(n, s)| tgt(n, Some(s))).into_iter().collect();
+            set_flags(fl2);
+            out.extend(plan.map(|(n, s)| tgt(n, Some(s))));
+            if out.is_empty() { "-".to_string() } else { out.join(",") }
+        }));
+        flags::clear_node_flags();
+        return r.unwrap_or_else(|_| "panic".into());
+    }
     let r = catch(AssertUnwindSafe(|| {
         let pick = match policy.pick(&ri, cluster) {
             Some((n, s)) => tgt(n, s),
@@ -222,6 +245,18 @@ fn main() {
             let c = format!("P {} {} {} {} {} {}", ns, rs, ksss, fl, pol, req);
             let o = run_case(cx, &c);
             out.case(&c, &o);
+            if r.chance(1, 5) {
+                // liveness changes after pick(): a few nodes change state
+                let fl2: String = fl
+                    .chars()
+                    .map(|ch| if r.chance(1, 3) { *r.pick(&['c', 'e', 'd']) } else { ch })
+                    .collect();
+                let c = format!("L {} {} {} {} {} {} {}", ns, rs, ksss, fl, fl2, pol, req);
+                let o = run_case(cx, &c);
+                if o != "nopick" {
+                    out.case(&c, &o);
+                }
+            }
         };
         for fl in &flag_sets {
             for _ in 0..npol {
